@@ -5,6 +5,10 @@ import AdfObdd.ServerAnswers
 import AdfObdd.ServerConcreteProofs
 import AdfObdd.ServerHybrid
 import AdfObdd.HybridExample
+import AdfObdd.ServerFuel
+import AdfObdd.ServerLive
+import AdfObdd.ServerParseLink
+import AdfObdd.Props.C17
 /-! # C16 — the web service returns the library's answers through its storage round trip
 
     Theorems about the executable models the correspondence runs compare with the real server:
@@ -149,7 +153,11 @@ theorem not_listed_after_finish (E : Env T H A R) (db : Db T H A R) (j n : Nat) 
   have := running_cleared E db j n t ht hlive x hx
   simp [isInfo, TaskRec.info, hname, huser, htask] at this
 
-/-- a running task is listed until then (the entry is there from the spawn on) -/
+/-- a running task is listed until then. In the MODEL the entry is there from the spawn command of the
+request on; in the Rust the `RunningGuard` is created as the first statement inside the `spawn_blocking`
+closure (adf.rs:433, 583), i.e. some time after the `200` - a modelled-not-verified timing difference, see
+`ServerLive.lean` (d): two quick solves of one strategy may both be accepted by the real server where the
+model answers `409`; the stored answer is not affected -/
 theorem listed_while_running (db : Db T H A R) (t : TaskRec T A) :
     t.input.task ∈ (ServerM.exec (ServerM.exec db (.spawn t)).1 (.rTasks t.username t.name : Cmd T H A R)).2 := by
   simp only [ServerM.exec, List.mem_map, List.mem_filter, Bool.and_eq_true, decide_eq_true_eq]
@@ -160,6 +168,25 @@ theorem listed_while_running (db : Db T H A R) (t : TaskRec T A) :
     exact ⟨x, ⟨hx, of_decide_eq_true hxi.1.2, of_decide_eq_true hxi.1.1⟩, of_decide_eq_true hxi.2⟩
   · simp only [h, Bool.false_eq_true, if_false]
     exact ⟨t.info, ⟨by simp, rfl, rfl⟩, rfl⟩
+
+/-- **running_entries_are_unfinished_tasks** (review 2 item 5c): an INVARIANT over all histories, not only
+the state right after `.finish`: in every state reached from the empty server every entry of
+`currently_running` is the `RunningInfo` of a spawned task whose blocking part has not ended -/
+theorem running_entries_are_unfinished_tasks (E : Env T H A R) (es : List (Event T)) :
+    ∀ x ∈ (runAll E {} es).1.db.running, ∃ t ∈ (runAll E {} es).1.db.tasks, t.info = x ∧ t.blockingDone = false :=
+  runInv_reachable E es
+
+/-- **not_reported_as_running**: in every reachable state, a task kind `GET` lists for the document
+`(u, n)` belongs to a task of that kind and key that is still in its blocking part; so once every task of
+that kind spawned under the key has ended, the kind is not listed. (The converse fails - in the Rust too:
+the running set is a set of (user, problem, kind) triples, twins share one entry: `histTwin` below.) -/
+theorem not_reported_as_running (E : Env T H A R) (es : List (Event T)) (u n : T) (k : Task)
+    (hended : ∀ t ∈ (runAll E {} es).1.db.tasks, t.username = u → t.name = n → t.input.task = k → t.blockingDone = true) :
+    k ∉ (ServerM.exec (runAll E {} es).1.db (.rTasks u n : Cmd T H A R)).2 := by
+  intro h
+  obtain ⟨t, ht, h1, h2, h3, h4⟩ := listed_only_if_unfinished E es u n k h
+  rw [hended t ht h1 h2 h3] at h4
+  cases h4
 
 end lifecycle
 
@@ -880,12 +907,84 @@ theorem hybrid_parse_error {T : Type} (Lf : Nat → Bio.Lib T) (dumpf : Nat → 
     (h : conditions code = .error e) : parseHybrid Lf dumpf key code = .error e :=
   parseHybrid_of_conditions_error Lf dumpf key code e h
 
-/-- the driver's service is the service with the modelled arm whenever the adopted tables are the model's -/
+/-- the driver's service is the service with the modelled arm whenever the adopted tables are the model's:
+the model's table where the model parses (`h`), no table where the model's hybrid arm panics on biodivine's
+name / size check (`hbad`) -/
 theorem adopted_service_is_modelled_service {T : Type} (Lf : Nat → Bio.Lib T) (dumpf : Nat → T → List Node) (o : Oracle)
     (h : ∀ code a r, parseHybrid Lf dumpf (parseKey .hybrid code) code = .ok (a, r) →
-      lookupS (parseKey .hybrid code) o.hyb = some a) :
+      lookupS (parseKey .hybrid code) o.hyb = some a)
+    (hbad : ∀ code x, conditions code = .ok x → bioVarsOK x.1 = false →
+      lookupS (parseKey .hybrid code) o.hyb = none) :
     ∀ p code, (libEnv o).parse p code = (hybEnv Lf dumpf).parse p code :=
-  libEnv_eq_hybEnv Lf dumpf o h
+  libEnv_eq_hybEnv Lf dumpf o h hbad
+
+/-- a successful hybrid parse: every statement name passed `BddVariableSetBuilder::make_variable`'s checks
+(none of `! & | ^ = < > ( ) ? :`, at most 65 534 names) - the `bioNameOK` condition of the CLI theorems,
+here a CONSEQUENCE of success -/
+theorem hybrid_parse_names_ok {T : Type} (Lf : Nat → Bio.Lib T) (dumpf : Nat → T → List Node) (key code : String)
+    (a : SAdf) (r : SRes) (h : parseHybrid Lf dumpf key code = .ok (a, r)) :
+    (∀ n ∈ a.names, CliM.bioNameOK n.toList = true) ∧ a.names.length ≤ 65534 := by
+  have hv := parseHybrid_names_ok Lf dumpf key code a r h
+  refine ⟨?_, bioVarsOK_length hv⟩
+  unfold bioVarsOK at hv
+  simp only [Bool.and_eq_true, List.all_eq_true] at hv
+  exact hv.1
+
+/-- … and with the name condition as a HYPOTHESIS valid code is parsed by the hybrid arm too -/
+theorem hybrid_parse_ok_of_names {T : Type} (Lf : Nat → Bio.Lib T) (dumpf : Nat → T → List Node) (key code : String)
+    (x : List String × List Fm) (h : conditions code = .ok x) (hv : bioVarsOK x.1 = true) :
+    ∃ a, parseHybrid Lf dumpf key code = .ok (a, [⟨a.ac, graphOf a.names a.nodes a.ac⟩]) ∧ a.names = x.1 :=
+  parseHybrid_of_conditions_ok Lf dumpf key code x h hv
+
+/-- **hybrid_parse_rejects_special_labels - finding D6 through the web service, model level**: VALID code
+(the parser accepts it, every `ac` names declared statements: `conditions code = .ok …`) one of whose
+statement names contains a character of `! & | ^ = < > ( ) ? :` (possible only for a quoted label) is parsed
+by naive parsing but makes the `Parsing::Hybrid` arm panic inside the blocking task
+(`BddVariableSetBuilder::make_variable`); the parse function answers `Error` - C16's "unparseable code is
+reported as error" has the unwanted converse "some valid code is reported as error" -/
+theorem hybrid_parse_rejects_special_labels {T : Type} (Lf : Nat → Bio.Lib T) (dumpf : Nat → T → List Node) (key code : String)
+    (x : List String × List Fm) (h : conditions code = .ok x)
+    (hbad : ∃ n ∈ x.1, CliM.bioNameOK n.toList = false) :
+    (∃ a r, parseNaive key code = .ok (a, r) ∧ a.names = x.1) ∧
+    parseHybrid Lf dumpf key code = .error .panic := by
+  constructor
+  · obtain ⟨a, r, h1, h2, _⟩ := parseNaive_ok key code x h
+    exact ⟨a, r, h1, h2⟩
+  · apply parseHybrid_rejects_of_bad_names Lf dumpf key code x h
+    obtain ⟨n, hn, hb⟩ := hbad
+    unfold bioVarsOK
+    have : x.1.all (fun n => CliM.bioNameOK n.toList) = false := by
+      rw [List.all_eq_false]
+      exact ⟨n, hn, by simp [hb]⟩
+    simp [this]
+
+/-- … what the service stores then: the hybrid parse task writes `Error` into `adf` and `parse_only`
+(and `error_blocks_solve`: every solve request is refused) although the code is valid -/
+theorem hybrid_parse_task_stores_error_for_special_labels {T : Type} (Lf : Nat → Bio.Lib T) (dumpf : Nat → T → List Node)
+    (db : Db String SHash SAdf SRes) (j n : Nat) (t : TaskRec String SAdf) (code : String)
+    (x : List String × List Fm) (hc : conditions code = .ok x) (hbad : ∃ n ∈ x.1, CliM.bioNameOK n.toList = false)
+    (ht : nthOf j n db.tasks = some t) (hin : t.input = .parse code .hybrid)
+    (hlive : t.blockingDone = true ∧ t.written = false)
+    (p : Problem String SAdf SRes) (hp : db.problems.find? (isProb t.username t.name) = some p) :
+    (dbEv (hybEnv Lf dumpf) db (.write j n)).problems.find? (isProb t.username t.name) =
+      some { p with adf := .error .panic, parseOnly := .error .panic } :=
+  parse_error_reported (hybEnv Lf dumpf) db j n t code .hybrid .panic ht hin hlive
+    (hybrid_parse_rejects_special_labels Lf dumpf _ code x hc hbad).2 p hp
+
+/-- the DRIVER's service in that case today: the implementation stored an error, so no table was adopted;
+`libEnv` stores `Error:panic` as well (and the run-time monitor prints `violated valid-code-not-stored`) -/
+theorem adopted_service_unadopted_valid_code (o : Oracle) (code : String) (x : List String × List Fm)
+    (hacc : conditions code = .ok x) (hl : lookupS (parseKey .hybrid code) o.hyb = none) :
+    (libEnv o).parse .hybrid code = .error .panic :=
+  libEnv_parse_hybrid_unadopted o code x hacc hl
+
+/-- **hybrid_parse_denotes_code on an executable arm, nothing assumed** (review 2 item 1): over the generic
+truth-table library `Bio.ttLib` with the generic decision-tree dump `Bio.ttDump` -/
+theorem hybrid_parse_denotes_code_tt (key code : String) (a : SAdf) (r : SRes)
+    (h : parseHybrid Bio.ttLib Bio.ttDump key code = .ok (a, r)) :
+    ∃ fms, conditions code = .ok (a.names, fms) ∧ SrvA.Denotes a a.names.length fms ∧
+      r = [⟨a.ac, graphOf a.names a.nodes a.ac⟩] :=
+  parseHybrid_tt_denotes key code a r h
 
 /-- **served_answer_for_code_any_parsing** (the final corollary of section 7 for BOTH parsing strategies,
 without a `Denotes` hypothesis): see `SrvC.served_answer_for_code_any_parsing` -/
@@ -950,6 +1049,22 @@ example : ∃ W : Bio.Lawful (Bio.ttLib 2) 2, Bio.DumpSpec W Bio.ttDump2 := ⟨B
       (match solveAdf a .stable with | .ok r => r.length == 2 | .error _ => false)
   | .error _ => false)
 
+/-- the repaired dump hypothesis `∀ n ≤ VBOT` HAS an instance (the old `∀ n` had none) -/
+example : ∃ W : ∀ n, Bio.Lawful (Bio.ttLib n) n, ∀ n, n ≤ VBOT → Bio.DumpSpec (W n) (Bio.ttDump n) := SrvC.tt_hyps
+
+/-- the code of finding D6 (quoted label `a&b`): valid, naive parsing stores a framework, the modelled
+hybrid arm answers `Error:panic` - and with harmless labels the arm over `Bio.ttLib` / `Bio.ttDump` (the
+generic library, any number of statements) stores a table that passes the driver's check -/
+def codeD6 : String := "s(\"a&b\").s(c).ac(\"a&b\",c).ac(c,\"a&b\")."
+example : bioVarsOK ["a&b", "c"] = false := by decide
+example : bioVarsOK ["a", "b"] = true := by decide
+#guard (match conditions codeD6 with | .ok (ns, _) => ns == ["a&b", "c"] | .error _ => false)
+#guard (match parseNaive "k" codeD6 with | .ok (a, _) => a.names == ["a&b", "c"] | .error _ => false)
+#guard (match parseHybrid Bio.ttLib Bio.ttDump "k" codeD6 with | .error .panic => true | _ => false)
+#guard (match parseHybrid Bio.ttLib Bio.ttDump "k" code1 with
+  | .ok (a, _) => a.names == ["a", "b"] && storedAdfOK' code1 a == "ok"
+  | .error _ => false)
+
 /-! ## 10. every reachable state of EVERY history, with finding D9 as the explicit carve-out
 
 Section 8 excludes the three requests that remove or rename documents. `ServerStale.lean`,
@@ -980,7 +1095,7 @@ theorem reachable_untainted_belong_to_the_code (E : Env T H A R) (es : List (Eve
   ServerM.reachable_untainted_belong_to_the_code E es p hp hn
 
 /-- **no_d9_all_belong**: histories without D9's shape (deletions, account removals, renames allowed) -/
-theorem no_d9_all_belong (E : Env T H A R) (es : List (Event T)) (hd : NoD9 E {} es) (p : Problem T A R)
+theorem no_d9_all_belong (E : Env T H A R) (es : List (Event T)) (hd : NoStaleWrite E {} es) (p : Problem T A R)
     (hp : p ∈ (runAll E {} es).1.db.problems) :
     (∀ a, p.adf = .some a → ∃ r, E.parse p.parsing p.code = .ok (a, r)) ∧
     (∀ s res, p.res.get s = .some res → ∃ a r, E.parse p.parsing p.code = .ok (a, r) ∧ E.solve a s = .ok res) :=
@@ -1003,7 +1118,7 @@ theorem recreated_clean_belongs (E : Env T H A R) (es1 es2 : List (Event T)) (e 
 
 /-- the deletion-free histories of section 8 never show D9's shape: `reachable_results_belong_to_the_code`
 is `no_d9_all_belong` restricted to them -/
-theorem deletion_free_no_d9 (E : Env T H A R) (es : List (Event T)) (hk : ∀ e ∈ es, e.keeps = true) : NoD9 E {} es :=
+theorem deletion_free_no_d9 (E : Env T H A R) (es : List (Event T)) (hk : ∀ e ∈ es, e.keeps = true) : NoStaleWrite E {} es :=
   noD9_of_keeps E es {} (Good.init E) hk
 
 /-- **reachable_results_from_submitted_codes**: provenance under EVERY key, tainted or not -/
@@ -1016,10 +1131,12 @@ theorem reachable_results_from_submitted_codes (E : Env T H A R) (es : List (Eve
 end allHistories
 
 /-- **reachable_served_answer_all** (the concrete service with the modelled hybrid arm, BOTH parsing
-strategies, histories with deletions and renames but without D9's shape): see `SrvC.reachable_served_answer_all` -/
+strategies, histories with deletions and renames but without D9's stale-write shape, the driver's search
+bound): see `SrvC.reachable_served_answer_all`. The dump hypothesis is demanded for `n ≤ VBOT` only (review 2
+item 1: for all `n` it is unsatisfiable); instance: `reachable_served_answer_tt`. -/
 theorem reachable_served_answer_all {T : Type} (Lf : Nat → Bio.Lib T) (dumpf : Nat → T → List Node)
-    (W : ∀ n, Bio.Lawful (Lf n) n) (hdump : ∀ n, Bio.DumpSpec (W n) (dumpf n))
-    (es : List (Event String)) (hd9 : NoD9 (SrvC.hybEnv Lf dumpf) {} es)
+    (W : ∀ n, Bio.Lawful (Lf n) n) (hdump : ∀ n, n ≤ VBOT → Bio.DumpSpec (W n) (dumpf n))
+    (es : List (Event String)) (hd9 : NoStaleWrite (SrvC.hybEnv Lf dumpf) {} es)
     (jar : Nat) (u name : String) (p : Problem String SAdf SRes) (s : Strategy) (res : SRes)
     (hs : (runAll (SrvC.hybEnv Lf dumpf) {} es).1.sess jar = some u)
     (hf : (runAll (SrvC.hybEnv Lf dumpf) {} es).1.db.problems.find? (isProb u name) = some p)
@@ -1032,6 +1149,62 @@ theorem reachable_served_answer_all {T : Type} (Lf : Nat → Bio.Lib T) (dumpf :
       conditions p.code = .ok (names, fms) ∧
       SrvA.PropAnswer names.length (fms.map Fm.sem) s (SrvA.storedI3 res) :=
   SrvC.reachable_served_answer_all Lf dumpf W hdump es hd9 jar u name p s res hs hf hres hb
+
+/-- **reachable_served_answer_all_bounds** (review 2 items 1 and 4): the same for the service whose solve task
+bounds the nogood search by `F`, for EVERY `F ≥ F0`, where `F0` is any bound within which the search halts
+on the document's framework. The Rust loop is UNBOUNDED; the stored result is the same for all `F ≥ F0`
+(`solve_fuel_monotone`), the driver's `10^6` is one instance (`SrvC.hybEnvF_bound`) -/
+theorem reachable_served_answer_all_bounds {T : Type} (F0 F : Nat) (hF : F0 ≤ F)
+    (Lf : Nat → Bio.Lib T) (dumpf : Nat → T → List Node)
+    (W : ∀ n, Bio.Lawful (Lf n) n) (hdump : ∀ n, n ≤ VBOT → Bio.DumpSpec (W n) (dumpf n))
+    (es : List (Event String)) (jar : Nat) (u name : String) (p : Problem String SAdf SRes) (s : Strategy) (res : SRes)
+    (hs : (runAll (SrvC.hybEnvF F Lf dumpf) {} es).1.sess jar = some u)
+    (hf : (runAll (SrvC.hybEnvF F Lf dumpf) {} es).1.db.problems.find? (isProb u name) = some p)
+    (hclean : taintRun (SrvC.hybEnvF F Lf dumpf) {} (fun _ _ => false) es u name = false)
+    (hres : p.res.get s = .some res)
+    (hb : ∀ a r, (SrvC.hybEnvF F Lf dumpf).parse p.parsing p.code = .ok (a, r) →
+      (p.parsing = .naive → a.names.length ≤ VBOT) ∧ SrvA.strategyHalts F0 a s = true) :
+    ∃ (i : Info String SRes) (names : List String) (fms : List Fm),
+      (ServerM.step (SrvC.hybEnvF F Lf dumpf) (runAll (SrvC.hybEnvF F Lf dumpf) {} es).1 ⟨jar, .get name⟩).2 =
+        ⟨200, .keep, .problem i⟩ ∧
+      i.code = p.code ∧ i.res.get s = .some res ∧
+      conditions p.code = .ok (names, fms) ∧
+      SrvA.PropAnswer names.length (fms.map Fm.sem) s (SrvA.storedI3 res) :=
+  SrvC.reachable_served_answer_untainted_bound F0 F hF Lf dumpf W hdump es jar u name p s res hs hf hclean hres hb
+
+/-- **reachable_served_answer_tt**: … instantiated with the generic truth-table library and its generic dump
+(`Bio.ttLib`, `Bio.ttDump`, `Bio.ttDump_spec`): NO hypothesis about an external library is left, the
+service is executable (`#guard`s below), so the two theorems above are demonstrably non-vacuous -/
+theorem reachable_served_answer_tt (F0 F : Nat) (hF : F0 ≤ F)
+    (es : List (Event String)) (jar : Nat) (u name : String) (p : Problem String SAdf SRes) (s : Strategy) (res : SRes)
+    (hs : (runAll (SrvC.hybEnvF F Bio.ttLib Bio.ttDump) {} es).1.sess jar = some u)
+    (hf : (runAll (SrvC.hybEnvF F Bio.ttLib Bio.ttDump) {} es).1.db.problems.find? (isProb u name) = some p)
+    (hclean : taintRun (SrvC.hybEnvF F Bio.ttLib Bio.ttDump) {} (fun _ _ => false) es u name = false)
+    (hres : p.res.get s = .some res)
+    (hb : ∀ a r, (SrvC.hybEnvF F Bio.ttLib Bio.ttDump).parse p.parsing p.code = .ok (a, r) →
+      (p.parsing = .naive → a.names.length ≤ VBOT) ∧ SrvA.strategyHalts F0 a s = true) :
+    ∃ (i : Info String SRes) (names : List String) (fms : List Fm),
+      (ServerM.step (SrvC.hybEnvF F Bio.ttLib Bio.ttDump) (runAll (SrvC.hybEnvF F Bio.ttLib Bio.ttDump) {} es).1 ⟨jar, .get name⟩).2 =
+        ⟨200, .keep, .problem i⟩ ∧
+      i.code = p.code ∧ i.res.get s = .some res ∧
+      conditions p.code = .ok (names, fms) ∧
+      SrvA.PropAnswer names.length (fms.map Fm.sem) s (SrvA.storedI3 res) :=
+  SrvC.reachable_served_answer_tt F0 F hF es jar u name p s res hs hf hclean hres hb
+
+/-! the hypotheses of `reachable_served_answer_tt` on a concrete history with HYBRID parsing, a deletion and a
+re-creation, `StableNogood`, search bound 2000 with `F0 = 1000` (by evaluation) -/
+def histTT : List (Event String) :=
+  [.req ⟨0, .register "u" "pw" 0⟩, .req ⟨0, .login "u" "pw"⟩, .req ⟨0, .add "p" (some code1) none .naive "~t" "~p"⟩,
+   .finish 0 0, .write 0 0, .req ⟨0, .delete "p"⟩, .req ⟨0, .add "p" (some code1) none .hybrid "~t" "~p"⟩,
+   .finish 0 1, .write 0 1, .req ⟨0, .solve "p" .stableNogood⟩, .finish 0 2, .write 0 2]
+
+#guard taintRun (SrvC.hybEnvF 2000 Bio.ttLib Bio.ttDump) {} (fun _ _ => false) histTT "u" "p" == false
+#guard (match (runAll (SrvC.hybEnvF 2000 Bio.ttLib Bio.ttDump) {} histTT).1.db.problems.find? (isProb "u" "p") with
+  | some p => p.parsing == .hybrid && (match p.res.get .stableNogood with | .some r => r.length == 2 | _ => false) &&
+      (match (SrvC.hybEnvF 2000 Bio.ttLib Bio.ttDump).parse p.parsing p.code with
+       | .ok (a, _) => SrvA.strategyHalts 1000 a .stableNogood
+       | .error _ => false)
+  | none => false)
 
 /-- **reachable_served_answer_checked** (the DRIVER's service, every history, BOTH parsing strategies): if
 the key of the document `GET` finds is untainted, the result shown under `s` is the definitional answer
@@ -1090,7 +1263,7 @@ def histRecreate : List (Event Nat) :=
    .req ⟨0, .solve 5 .ground⟩, .finish 0 2, .write 0 2, .req ⟨0, .update 2 7 0⟩, .req ⟨0, .solve 5 .complete⟩,
    .finish 0 3, .write 0 3]
 
-example : NoD9 Etoy {} histRecreate := noD9b_sound Etoy _ _ (by decide)
+example : NoStaleWrite Etoy {} histRecreate := noD9b_sound Etoy _ _ (by decide)
 example : (runAll Etoy {} histRecreate).1.db.problems.map (fun p => (p.username, p.code, p.adf, p.res.ground, p.res.complete)) =
     [(2, 8, .some 8, .some 108, .some 108)] := by decide
 -- the hypotheses of `recreated_clean_belongs` at the re-creation (7th event) for the key (1, 5)
@@ -1102,4 +1275,212 @@ example : docsAt (runAll Etoy {} (histRecreate.take 6)).1.db 1 5 = 0 ∧
       [.finish 0 1, .write 0 1, .req ⟨0, .solve 5 .ground⟩, .finish 0 2, .write 0 2] := by
   refine ⟨by decide, by decide, by decide, by decide, by decide, by decide, by decide, by decide, by decide, trivial⟩
 
+/-! ## 11. the search bound is irrelevant once the search has halted (review 2 item 4)
+
+`nogood_internal` in the Rust is a `loop` WITHOUT a bound; the model bounds it by a fuel. Every theorem above
+that mentions `SrvA.strategyHalts 1000000 a s` is the instance `F0 = F = 10^6` of a statement "for every bound
+`F ≥ F0`", `F0` any bound within which the search halts - and such an `F0` always exists
+(`stored_answers_exact_every_large_bound`). -/
+
+/-- **solve_fuel_monotone**: if the strategy's search halts within `F` iterations, the solve task returns
+the same result, and still halts, for every bound `F' ≥ F` -/
+theorem solve_fuel_monotone (F F' : Nat) (a : SAdf) (s : Strategy) (hh : SrvA.strategyHalts F a s = true) (hF : F ≤ F') :
+    SrvA.solveAdfF F' a s = SrvA.solveAdfF F a s ∧ SrvA.strategyHalts F' a s = true :=
+  ⟨SrvA.solveAdfF_mono F F' a s hh hF, SrvA.strategyHalts_mono F F' a s hh hF⟩
+
+/-- **stored_answers_exact_all_bounds**: ONE result for all bounds `F ≥ F0`, and it is the specification's
+answer - the statement about the unbounded loop -/
+theorem stored_answers_exact_all_bounds (F0 : Nat) (a : SAdf) (n : Nat) (fms : List Fm) (s : Strategy)
+    (h : SrvA.Denotes a n fms) (hh : SrvA.strategyHalts F0 a s = true) :
+    ∃ res, (∀ F, F0 ≤ F → SrvA.solveAdfF F a s = .ok res ∧ SrvA.strategyHalts F a s = true) ∧
+      (SrvA.storedI3 res).Perm (Cli.specSection n (CliF.tablesOf n fms) (SrvA.secOf s)) :=
+  SrvA.stored_answers_exact_from_bound F0 a n fms s h hh
+
+/-- the driver's model `solveAdf` (bound 10^6) is the instance: whenever the search halts within SOME
+`F0 ≤ 10^6`, `solveAdf` returns the result of every bound `F ≥ F0` -/
+theorem stored_answers_exact_driver_instance (F0 : Nat) (hF0 : F0 ≤ 1000000) (a : SAdf) (n : Nat) (fms : List Fm) (s : Strategy)
+    (h : SrvA.Denotes a n fms) (hh : SrvA.strategyHalts F0 a s = true) :
+    ∃ res, solveAdf a s = .ok res ∧ (∀ F, F0 ≤ F → SrvA.solveAdfF F a s = .ok res) ∧
+      (SrvA.storedI3 res).Perm (Cli.specSection n (CliF.tablesOf n fms) (SrvA.secOf s)) := by
+  obtain ⟨res, h1, h2⟩ := stored_answers_exact_all_bounds F0 a n fms s h hh
+  exact ⟨res, by rw [← solve_model_is_bound_instance]; exact (h1 _ hF0).1, fun F hF => (h1 F hF).1, h2⟩
+
+-- non-vacuity (by evaluation): on the framework of `code1` the search of `StableNogood` halts within 50
+-- iterations, and the results for the bounds 50, 1000 and 10^6 coincide
+#guard (match parseNaive "k" code1 with
+  | .ok (a, _) => SrvA.strategyHalts 50 a .stableNogood &&
+      (match SrvA.solveAdfF 50 a .stableNogood, SrvA.solveAdfF 1000 a .stableNogood, solveAdf a .stableNogood with
+       | .ok r1, .ok r2, .ok r3 => r1.map AcG.ac == r2.map AcG.ac && r2.map AcG.ac == r3.map AcG.ac && r1.length == 2
+       | _, _, _ => false)
+  | .error _ => false)
+
+/-! ## 12. an accepted solve whose task is written yields a stored result; lost writes (review 2 item 5)
+
+Sections 7-10 are safety statements ("IF a result is stored THEN it is the right one"). `ServerLive.lean`
+adds the liveness-flavoured half and names D9's second symptom. -/
+
+section live
+variable {T H A R : Type} [DecidableEq T]
+
+/-- **accepted_solve_spawns**: an accepted `PUT /adf/{name}/solve` leaves an unfinished solve task for the
+STORED framework under the document's key (`Pending`) -/
+theorem accepted_solve_spawns (E : Env T H A R) (st : State T H A R) (jar : Nat) (name : T) (s : Strategy)
+    (h : (ServerM.step E st ⟨jar, .solve name s⟩).2.status = 200) :
+    ∃ u p a, st.sess jar = some u ∧ st.db.problems.find? (isProb u name) = some p ∧ p.adf = .some a ∧
+      Pending u name a s jar (st.db.tasks.filter (fun x => decide (x.jar = jar))).length false
+        (ServerM.step E st ⟨jar, .solve name s⟩).1.db :=
+  ServerM.accepted_solve_spawns E st jar name s h
+
+/-- **accepted_solve_yields_result**: see `ServerM.accepted_solve_yields_result`. From a `Pending` state,
+after ANY events, the end of the task's blocking part, ANY events and the task's write - the events in
+between neither delete / rename documents nor belong to this task - the document under the key shows under
+`s` exactly the outcome of `E.solve a s` -/
+theorem accepted_solve_yields_result (E : Env T H A R) (u name : T) (a : A) (s : Strategy) (j n : Nat)
+    (st : State T H A R) (h : Pending u name a s j n false st.db) (es2 es3 : List (Event T))
+    (h2 : ∀ e ∈ es2, Quiet j n e = true) (h3 : ∀ e ∈ es3, Quiet j n e = true) :
+    ∃ p', (runAll E st (es2 ++ [.finish j n] ++ es3 ++ [.write j n])).1.db.problems.find? (isProb u name) = some p' ∧
+      p'.res.get s = solveOutcome E a s :=
+  ServerM.accepted_solve_yields_result E u name a s j n st h es2 es3 h2 h3
+
+/-- **accepted_solve_eventually_stored** (the two composed, from the REQUEST): if `PUT /adf/{name}/solve` with
+strategy `s` is answered `200` in ANY state `st` (in particular any reachable one), `n` is the number of tasks
+the jar spawned before, and the history continues with `es2`, the end of that task's blocking part, `es3`,
+and that task's write - `es2`, `es3` arbitrary except for `DELETE /adf/…`, `DELETE /users/delete`,
+`PUT /users/update` and events of this very task -, then the document under the requester's key shows under
+`s` the outcome of `E.solve a s` for the framework `a` that was stored in the document when the request
+arrived: a result DOES get stored -/
+theorem accepted_solve_eventually_stored (E : Env T H A R) (st : State T H A R) (jar : Nat) (name : T) (s : Strategy)
+    (hacc : (ServerM.step E st ⟨jar, .solve name s⟩).2.status = 200) (es2 es3 : List (Event T))
+    (h2 : ∀ e ∈ es2, Quiet jar (st.db.tasks.filter (fun x => decide (x.jar = jar))).length e = true)
+    (h3 : ∀ e ∈ es3, Quiet jar (st.db.tasks.filter (fun x => decide (x.jar = jar))).length e = true) :
+    ∃ u p a p', st.sess jar = some u ∧ st.db.problems.find? (isProb u name) = some p ∧ p.adf = .some a ∧
+      (runAll E st ([.req ⟨jar, .solve name s⟩] ++ es2 ++
+          [.finish jar (st.db.tasks.filter (fun x => decide (x.jar = jar))).length] ++ es3 ++
+          [.write jar (st.db.tasks.filter (fun x => decide (x.jar = jar))).length])).1.db.problems.find? (isProb u name)
+        = some p' ∧
+      p'.res.get s = solveOutcome E a s := by
+  obtain ⟨u, p, a, h1, hf, ha, hpend⟩ := ServerM.accepted_solve_spawns E st jar name s hacc
+  obtain ⟨p', hp', hres⟩ := ServerM.accepted_solve_yields_result E u name a s jar _ _ hpend es2 es3 h2 h3
+  refine ⟨u, p, a, p', h1, hf, ha, ?_, hres⟩
+  simp only [List.append_assoc, List.singleton_append, runAll] at hp' ⊢
+  exact hp'
+
+/-- **write_visible_iff_not_lost**: a due write is visible under the task's key iff a document carries the key
+at that moment; otherwise (`lostWrite`) NO document changes - the accepted task's outcome is never stored -/
+theorem write_visible_iff_not_lost (E : Env T H A R) (st : State T H A R) (j n : Nat) (t : TaskRec T A)
+    (ht : nthOf j n st.db.tasks = some t) (hlive : t.blockingDone = true ∧ t.written = false) :
+    (lostWrite st (.write j n) = false →
+      ∃ p, st.db.problems.find? (isProb t.username t.name) = some p ∧
+        (ServerM.stepEv E st (.write j n)).1.db.problems.find? (isProb t.username t.name) = some ((taskWrite E t.input).apply p)) ∧
+    (lostWrite st (.write j n) = true → (ServerM.stepEv E st (.write j n)).1.db.problems = st.db.problems) :=
+  ServerM.write_visible_iff_not_lost E st j n t ht hlive
+
+end live
+
+/-- `accepted_solve_yields_result` on the toy library: accepted solve, another user's events in between -/
+example : ∃ p', (runAll Etoy (runAll Etoy {} (histOk.take 7)).1
+      ([.finish 1 0, .write 1 0] ++ [.finish 0 1] ++ [.req ⟨1, .solve 5 .complete⟩] ++ [.write 0 1])).1.db.problems.find?
+        (isProb 1 5) = some p' ∧ p'.res.get .ground = .some 107 := by
+  have hp : Pending (1 : Nat) 5 7 .ground 0 1 false (runAll Etoy {} (histOk.take 7)).1.db :=
+    ⟨Option.isSome_iff_exists.mp (by decide),
+     ⟨{ jar := 0, username := 1, name := 5, input := .solve 7 .ground }, by decide, rfl, rfl, rfl, rfl, rfl⟩⟩
+  exact accepted_solve_yields_result Etoy 1 5 7 .ground 0 1 _ hp _ _ (by decide) (by decide)
+
+/-- **D9's LOST write** (reviewer's `histLost`): add, parse, solve accepted, the account is RENAMED while the
+solve task runs, the task ends and writes: the write matches nothing. The history shows no stale-write
+shape (`NoStaleWrite`, the former `NoD9`, HOLDS), every task has ended and written, nothing is running -
+and the accepted solve left no result. `NoLostWrite` is what excludes it. -/
+def histLost : List (Event Nat) :=
+  [.req ⟨0, .register 1 7 0⟩, .req ⟨0, .login 1 7⟩, .req ⟨0, .add 5 (some 7) none .naive 100 101⟩,
+   .finish 0 0, .write 0 0, .req ⟨0, .solve 5 .ground⟩, .req ⟨0, .update 2 7 0⟩, .finish 0 1, .write 0 1]
+
+example : NoStaleWrite Etoy {} histLost := noD9b_sound Etoy _ _ (by decide)
+example : ¬ NoLostWrite Etoy {} histLost := fun h => absurd ((noLostWriteB_iff Etoy _ _).mpr h) (by decide)
+example : (runAll Etoy {} histLost).1.db.problems.map (fun p => (p.username, p.adf, p.res.ground)) = [(2, .some 7, .none)] := by decide
+example : (runAll Etoy {} histLost).1.db.running = [] ∧
+    (runAll Etoy {} histLost).1.db.tasks.all (fun t => t.blockingDone && t.written) = true := by decide
+-- … while the histories of sections 8 and 10 lose no write
+example : NoLostWrite Etoy {} histOk := (noLostWriteB_iff Etoy _ _).mp (by decide)
+example : NoLostWrite Etoy {} histRecreate := (noLostWriteB_iff Etoy _ _).mp (by decide)
+
+/-- twins share one running entry: delete + re-add while the parse task runs; when the FIRST parse task ends
+the entry is removed although the second task is still in its blocking part (`RunningGuard` on a `HashSet`
+of `(user, problem, kind)`: the Rust does the same) - so only one direction of "listed iff running" holds -/
+def histTwin : List (Event Nat) :=
+  [.req ⟨0, .register 1 7 0⟩, .req ⟨0, .login 1 7⟩, .req ⟨0, .add 5 (some 7) none .naive 100 101⟩,
+   .req ⟨0, .delete 5⟩, .req ⟨0, .add 5 (some 8) none .naive 100 101⟩, .finish 0 0]
+
+example : (runAll Etoy {} histTwin).1.db.running = [] ∧
+    (runAll Etoy {} histTwin).1.db.tasks.map (fun t => (t.input, t.blockingDone)) =
+      [(.parse 7 .naive, true), (.parse 8 .naive, false)] := by decide
+
+/-! ## 13. finding D14: the race in `add_adf_problem` and C16's first sentence
+
+The atomic-request model of sections 7-12 executes each request in one step. The command-granular model
+(`ServerCmd.lean`, Props/C17 §7) interleaves requests between their database commands; there
+`add_adf_problem`'s check-then-act (`find_one`, later `insert_one`, no unique index on `(username, name)`)
+lets two concurrent adds of the same `(user, name)` create TWO documents, and both parse tasks write into the
+first: "the models stored and returned for that problem are exactly the answers for the submitted code" FAILS
+(`add_race_breaks_the_sentence`). Without interleaved requests it holds (`sequential_requests_sentence_partial`). -/
+
+section race
+variable {T H A R : Type} [DecidableEq T]
+open ServerCmd
+
+/-- **sequential_requests_sentence_partial**: in the command-granular model, under every schedule in which each
+request runs from arrival to response without another command in between (`seqSchedule` of ANY history:
+any requests of any users, background-task events anywhere between requests), the state is the atomic
+model's, so every document under an untainted key stores only what belongs to its OWN code. PARTIAL: the
+hypothesis excludes every interleaving of requests, not only interleaved adds of the same `(user, name)`
+(the weaker hypothesis would need a commutation argument for the other request pairs, which is not done;
+`C17.add_unique_if_not_interleaved` is the local fact: an uninterleaved add never duplicates a key) -/
+theorem sequential_requests_sentence_partial (E : Env T H A R) (es : List (Event T)) (p : Problem T A R)
+    (hp : p ∈ (runC E {} (seqSchedule E {} es)).db.problems)
+    (hn : taintRun E {} (fun _ _ => false) es p.username p.name = false) :
+    (∀ a, p.adf = .some a → ∃ r, E.parse p.parsing p.code = .ok (a, r)) ∧
+    (∀ s res, p.res.get s = .some res → ∃ a r, E.parse p.parsing p.code = .ok (a, r) ∧ E.solve a s = .ok res) := by
+  rw [(C17.atomic_is_sequential_schedule E es).1] at hp
+  exact ServerM.reachable_untainted_belong_to_the_code E es p hp hn
+
+/-- … and an uninterleaved add keeps "at most one document per `(user, name)`" -/
+theorem add_not_interleaved_keeps_keys_unique (E : Env T H A R) (s : CState T H A R) (jar : Nat) (name : T)
+    (code file : Option T) (parsing : Parsing) (fu fp : T) (h : ProbUnique s.db) :
+    ProbUnique (runC E s (seqRequest E ⟨s.db, s.sess⟩ s.pool.length ⟨jar, .add name code file parsing fu fp⟩)).db :=
+  C17.add_unique_if_not_interleaved E s jar name code file parsing fu fp h
+
+end race
+
+/-- **add_race_breaks_the_sentence (finding D14)**: two concurrent `POST /adf/add` of one user with the same
+problem name and different codes (9 and 4), interleaved between `find_one` and `insert_one`: both are answered
+`200`, two documents carry the key, and after both parse tasks have written `GET /adf/5` shows the CODE of the
+first request with the parse result of the SECOND - a stored framework that is not the parse result of the
+document's own code, with no deletion, rename or stale task involved (`C17.add_race_wrong_answer`) -/
+theorem add_race_breaks_the_sentence :
+    (ServerCmd.runC C17.E0 C17.aliceIn C17.addRace).out.map (fun x => x.2.status) = [200, 200, 200, 200] ∧
+    ServerCmd.keyCount 1 5 (ServerCmd.runC C17.E0 C17.aliceIn C17.addRace).db = 2 ∧
+    (ServerCmd.runC C17.E0 (ServerCmd.runC C17.E0 C17.aliceIn C17.addRace)
+      ([.finish 0 0, .write 0 0, .finish 0 1, .write 0 1] ++ [.arrive ⟨0, .get 5⟩, .cmd 0, .cmd 0, .deliver 0])).out.getLast?
+      = some (0, ⟨200, .keep, .problem ⟨5, 9, .naive, .some 4, {}, []⟩⟩) ∧
+    C17.E0.parse .naive 9 ≠ .ok (4, 4) :=
+  ⟨C17.add_race_duplicate.1, C17.add_race_duplicate.2.2.1, C17.add_race_wrong_answer.1, by decide⟩
+
 end C16
+
+#print axioms C16.reachable_served_answer_all
+#print axioms C16.reachable_served_answer_all_bounds
+#print axioms C16.reachable_served_answer_tt
+#print axioms C16.hybrid_parse_rejects_special_labels
+#print axioms C16.hybrid_parse_task_stores_error_for_special_labels
+#print axioms C16.hybrid_parse_denotes_code_tt
+#print axioms C16.adopted_service_is_modelled_service
+#print axioms C16.running_entries_are_unfinished_tasks
+#print axioms C16.not_reported_as_running
+#print axioms C16.solve_fuel_monotone
+#print axioms C16.stored_answers_exact_all_bounds
+#print axioms C16.stored_answers_exact_driver_instance
+#print axioms C16.accepted_solve_spawns
+#print axioms C16.accepted_solve_yields_result
+#print axioms C16.write_visible_iff_not_lost
+#print axioms C16.accepted_solve_eventually_stored
+#print axioms C16.sequential_requests_sentence_partial
+#print axioms C16.add_race_breaks_the_sentence
